@@ -4,7 +4,7 @@
 
 package crypto
 
-//@ property C29 C05 C13
+//@ property C29 C05 C13 C32
 // ECDSA public-key recovery is abstracted: sig_ok / sig_pk are uninterpreted functions of the
 // signature object and the hash bytes.
 //@ smt all (declare-fun sig_ok (Int BSeq) Bool)
@@ -30,3 +30,27 @@ package crypto
 //@   trusted
 //@   pure
 //@   ensures seq(h) == sha3(seq(m)) && len(h) == 32 && h != nil
+
+// C32: parsing and plain ECDSA verification, abstracted the same way
+//@ smt all (declare-fun pk_valid (BSeq) Bool)
+//@ smt all (declare-fun pk_parse (BSeq) BSeq)
+//@ smt all (declare-fun sig_parse (BSeq) BSeq)
+//@ smt all (declare-fun sig_data (Int) BSeq)
+//@ smt all (declare-fun ecdsa_verify (BSeq BSeq BSeq) Bool)
+//@ func ParsePublicKey(pubKey) (pk, err)
+//@   trusted
+//@   pure
+//@   ensures (err == nil) == pk_valid(seq(pubKey))
+//@   ensures err == nil ==> pk != nil && pk_bytes(ref(pk)) == pk_parse(seq(pubKey))
+//@   ensures err != nil ==> pk == nil
+//@ func ParseSignature(sig) (s, err)
+//@   trusted
+//@   pure
+//@   ensures (err == nil) == (len(sig) == 64 || len(sig) == 65)
+//@   ensures err == nil ==> s != nil && sig_data(ref(s)) == sig_parse(seq(sig))
+//@   ensures err != nil ==> s == nil
+//@ func (sig *Signature) Verify(msg, pubKey) (ok)
+//@   trusted
+//@   pure
+//@   requires sig != nil
+//@   ensures ok == (pubKey != nil && ecdsa_verify(sig_data(ref(sig)), seq(msg), pk_bytes(ref(pubKey))))
